@@ -490,6 +490,18 @@ PROPS["C10"]["rule"] += ("; plus a size grid (1x1 ... 70000x4, cells around 100 
                          "(Stacked Borrows: a reference that extends past its allocation is reported when it is formed) and AddressSanitizer")
 PROPS["C10"]["require"]["any"]["grid.shapes-run"] = 10
 
+_c15_base = PROPS["C15"]["jobs"]
+_c15_replay = PROPS["C15"]["replay"]
+# the multi-column conjunction as the high-level crate applies it (per-column status, rescoring versus updating old matches)
+PROPS["C15"]["jobs"] = lambda tier: _c15_base(tier) + [
+    wk("nucleo-columns-chk", "random", "chk", 4, 1000000, 20 if tier != "thorough" else 600, props="C15"),
+    wk("nucleo-columns-rel", "random", "rel", 2, 1000000, 20 if tier != "thorough" else 600, props="C15", shard_base=4)]
+PROPS["C15"]["replay"] = lambda rj: (replay_generic("worker_mon", "random", "C15")(rj) if (rj.get("job") or "").startswith("nucleo-") else _c15_replay(rj))
+PROPS["C15"]["rule"] += ("; plus histories against a real Nucleo with 2-5 columns (several columns edited between two ticks, appended and replaced): the quiescent snapshot must be "
+                         "the conjunction over the columns computed from scratch")
+PROPS["C15"]["require"]["any"]["c15.multi-column-quiescent-states-compared"] = 200
+PROPS["C15"]["require"]["any"]["c15.ticks-after-edits-of-2+-columns"] = 50
+
 _c02_base = PROPS["C02"]["jobs"]
 PROPS["C02"]["jobs"] = lambda tier: _c02_base(tier) + [
     grid_job("grid-miri", "miri", 6 if tier != "thorough" else 16, 1 if tier != "thorough" else 4, 50 if tier != "thorough" else 2400, 6000 if tier != "thorough" else 110000, miriflags=MIRI_SB)]
